@@ -31,7 +31,7 @@ F8 = contracts.F8_KEY
 
 def cases(tier, seed):
     rng = np.random.default_rng([6, seed])
-    n = 360 if tier == "quick" else 12000
+    n = 360 if tier == "quick" else 50000
     out = []
     for j in range(n):
         out.append({"kind": "synthetic", "s": int(rng.integers(1 << 30)), "cell": planted.CELL_CLASSES[j % 9], "pattern": PATTERNS[(j // 2) % len(PATTERNS)],
@@ -336,9 +336,9 @@ def example_step(ctx, st, S, P, R, pat, rep, step, pf, rf):
 
 def requirements(stats, tier):
     need = []
-    if stats.get("steps_compared_with_model") < (300 if tier == "quick" else 10000):
+    if stats.get("steps_compared_with_model") < (300 if tier == "quick" else 40000):
         need.append("too few replacement steps compared: %d" % stats.get("steps_compared_with_model"))
-    if stats.get("two_step_chains") < (20 if tier == "quick" else 800):
+    if stats.get("two_step_chains") < (20 if tier == "quick" else 3000):
         need.append("too few two-step chains: %d" % stats.get("two_step_chains"))
     if stats.get("example3_completed") < 1:
         need.append("documented Example 3 not completed")
